@@ -151,4 +151,80 @@ example : iterOptions [25, 1] [25, 1] none { lv with flag := fun b => !b } = [.o
 example : zipLongest [[1, 2, 3], [7], ([] : List Nat)] = [[some 1, some 7, none], [some 2, some 7, none], [some 3, some 7, none]] := by
   decide
 
+/-! ### the whole of the source parameters -/
+
+/-- hypotheses the per-group theorems need: preset tables keyed without repetition, colour triples -/
+def Group.WF : Group → Prop
+  | .simple _ _ ps _ => ∀ l, ps = some l → (l.map (·.1)).Nodup
+  | .color _ t ps _ => t.length = 3 ∧ (ps.map (·.1)).Nodup
+
+theorem group_option_ok (g : Group) (hw : Group.WF g) (o : GOpt) (ho : o ∈ g.options) :
+    g.decode o = some g.target ∧ g.levelOk o = true := by
+  cases g with
+  | simple b t ps L =>
+    simp only [Group.options, List.mem_map] at ho
+    obtain ⟨o', ho', rfl⟩ := ho
+    exact options_decode_to_target b t ps L hw o' ho'
+  | color b t ps L =>
+    simp only [Group.options, List.mem_map] at ho
+    obtain ⟨o', ho', rfl⟩ := ho
+    exact color_spec_options_decode_to_target b t ps L hw.1 hw.2 o' ho'
+
+theorem filterMap_id_of_all_some {α : Type} : ∀ (r : List (Option α)), r.all Option.isSome = true →
+    (r.filterMap id).length = r.length ∧ ∀ i (h1 : i < (r.filterMap id).length) (h2 : i < r.length), r[i] = some (r.filterMap id)[i]
+  | [], _ => ⟨rfl, fun i h1 _ => absurd h1 (by simp)⟩
+  | none :: r, h => by simp at h
+  | some x :: r, h => by
+    have h' : r.all Option.isSome = true := by simpa using h
+    obtain ⟨l, f⟩ := filterMap_id_of_all_some r h'
+    refine ⟨by simp [l], ?_⟩
+    intro i h1 h2
+    cases i with
+    | zero => simp
+    | succ i =>
+      simp only [List.filterMap_cons, id, List.getElem_cons_succ]
+      exact f i (by simpa [List.filterMap_cons] using h1) (by simpa using h2)
+
+theorem takeWhile_sat {α : Type} (p : α → Bool) : ∀ (l : List α) (x : α), x ∈ l.takeWhile p → p x = true
+  | [], _, h => by simp at h
+  | a :: l, x, h => by
+    rw [List.takeWhile_cons] at h
+    split at h
+    · rename_i ha
+      rcases List.mem_cons.1 h with e | m
+      · rw [e]; exact ha
+      · exact takeWhile_sat p l x m
+    · simp at h
+
+/-- **the whole set of source parameters**: every row `iter_source_parameter_options` yields has one
+    encoding per group, in order, and each of them decodes to that group's requested values and passes
+    that group's level checks -/
+theorem source_parameters_decode_to_target (tffBase tffTarget : Bool) (groups : List Group)
+    (hw : ∀ g ∈ groups, Group.WF g) (row : List GOpt) (hr : row ∈ iterSourceParameters tffBase tffTarget groups) :
+    tffBase = tffTarget ∧ row.length = groups.length ∧
+    ∀ i (hi : i < groups.length) (hi' : i < row.length),
+      groups[i].decode row[i] = some groups[i].target ∧ groups[i].levelOk row[i] = true := by
+  unfold iterSourceParameters at hr
+  split at hr
+  · cases hr
+  · rename_i htff
+    simp only [List.mem_map] at hr
+    obtain ⟨r, hrm, rfl⟩ := hr
+    have hall : r.all Option.isSome = true := takeWhile_sat _ _ r hrm
+    have hz := zipLongest_entries (groups.map Group.options) r (mem_of_mem_takeWhile _ _ r hrm)
+    obtain ⟨hl, hf⟩ := filterMap_id_of_all_some r hall
+    have hlen : r.length = groups.length := by simpa using hz.1
+    refine ⟨by simpa using htff, by rw [hl, hlen], ?_⟩
+    intro i hi hi'
+    have hir : i < r.length := by rw [hlen]; exact hi
+    have hsome := hf i hi' hir
+    rcases hz.2 i (by simpa using hi) hir with ⟨_, hn⟩ | ⟨x, hx, hxe⟩
+    · rw [hn] at hsome; cases hsome
+    · rw [hxe] at hsome
+      have hx' : x ∈ groups[i].options := by simpa using hx
+      have e : (r.filterMap id)[i] = x := by cases hsome; rfl
+      rw [e]
+      exact group_option_ok groups[i] (hw _ (List.getElem_mem hi)) x hx'
+
+
 end VC2.Props.C15
